@@ -1,6 +1,6 @@
 # -*- coding: utf-8 -*-
 """C11 -- step matching and dispatch (DESIGN.md 5.11)."""
-from pyvc.contracts import contract, oracle, ghost, Loop, shape, trusted_note, macro, Raises
+from pyvc.contracts import contract, oracle, ghost, Loop, shape, trusted_note, macro, Raises, global_const
 from contracts import prop
 
 S = "behave.step_registry:"
@@ -144,6 +144,32 @@ contract(MT + "Match.run", props=P + ["C02"], params={"self": "ref:Match", "cont
                  " and forall(lambda x: implies(has_key(G_sf_last_kwargs, x), "
                  "exists(lambda k: 0 <= k < len(%s) and %s[k].name == x)))" % (ARGS, ARGS, ARGS, ARGS, ARGS),
          })
+
+# -- "re" matchers: the compiled expression is the (anchored) pattern, however it gets compiled ------------------------
+oracle("compiled", ["val"], "val")            # re.compile(pattern, re.UNICODE)
+shape("RegexMatcher", _regex="any")
+global_const("re", ("module", "re"))
+contract("lib:re.compile", trusted=True, pos_params=["pattern", "flags"], defaults={"flags": 0}, pure=True, result="any",
+         ensures={"value": "result == compiled(pattern) and not is_none(result)"},
+         doc="re.compile(pattern, re.UNICODE): a function of the pattern text (A-lib); may raise re.error for a bad pattern (A-user)")
+ANCHORED = "compiled('^%s$' % self.pattern)"
+PLAIN = "compiled(self.pattern)"
+for _cls, _expr in (("RegexMatcher", PLAIN), ("SimplifiedRegexMatcher", ANCHORED)):
+    contract(MT + _cls + ".regex", props=P, params={"self": "ref:" + _cls}, self_classes=[_cls], result="any",
+             callsites={"re.compile": "lib:re.compile"}, modifies=["self._regex"],
+             ensures={"compiled-lazily-once": "implies(not is_none(old(self._regex)), result == old(self._regex) and self._regex == old(self._regex))",
+                      "the-expression-that-is-compiled": "implies(is_none(old(self._regex)), result == %s and self._regex == result)" % _expr},
+             doc="full-text matching of the 're' matcher comes from the '^...$' anchors added here" if _cls != "RegexMatcher" else "")
+contract(MT + "RegexMatcher.compile", props=P, params={"self": "ref:RegexMatcher"},
+         self_classes=["RegexMatcher", "SimplifiedRegexMatcher", "CucumberRegexMatcher"],
+         callsites={"re.compile": "lib:re.compile"}, modifies=["self._regex"],
+         requires={"nothing-compiled-yet-or-the-matcher's-own-expression":
+                   "is_none(self._regex) or self._regex == (%s if typeof_is(self, 'SimplifiedRegexMatcher') else %s)" % (ANCHORED, PLAIN)},
+         ensures={"returns-the-matcher": "result is self",
+                  "compiles-the-matcher's-own-expression-anchored-for-the-re-matcher":
+                      "self._regex == (%s if typeof_is(self, 'SimplifiedRegexMatcher') else %s)" % (ANCHORED, PLAIN)},
+         doc="add_step_definition compiles every new matcher through this method: the 're' matcher must end up with the "
+             "anchored expression (whole-text match), 're0' with the pattern as written")
 
 prop("C11", level="proof", bounded=[],
      explanation="dispatch order (own type before generic, earlier before later, first hit wins), Matcher.match/matches "
